@@ -236,16 +236,20 @@ def doPlayData (s : St) (key : String) : Out :=
     | some _ => .ret (.atom "<envelope>")
     | none => .exc "RecordingKeyError"
 
-/-- what `_execute_func_and_record_interception` does with the outcome of an intercepted input (flag already reset) -/
-def afterInput (cfg : InCfg) (args : Args) (k0 : Key) (s : St) : Out → St
-  | .exc t => write s k0 (.exception t)
+/-- the envelope `_execute_func_and_record_interception` stores for the outcome of an intercepted input;
+`none`: the data handler raised (the recording is discarded) -/
+def envelopeOf (cfg : InCfg) (args : Args) : Out → Option RVal
+  | .exc t => some (.exception t)
   | .ret v =>
     match cfg.prepare with
-    | none => write s k0 (.value v)
-    | some f =>
-      match f args v with
-      | some v' => write s k0 (.value v')
-      | none => doDiscard s
+    | none => some (.value v)
+    | some f => (f args v).map RVal.value
+
+/-- what `_execute_func_and_record_interception` does with the outcome of an intercepted input (flag already reset) -/
+def afterInput (cfg : InCfg) (args : Args) (k0 : Key) (s : St) (o : Out) : St :=
+  match envelopeOf cfg args o with
+  | some env => write s k0 env
+  | none => doDiscard s
 
 /-- … and with the outcome of an intercepted output's body (no data handler on the result) -/
 def afterOutput (alias : String) (n : Nat) (s : St) : Out → St
